@@ -264,7 +264,7 @@ func parseXferOpts(m Op) xferOpts {
 			o.metaOnly[unhex(x.(string))] = true
 		}
 	}
-	o.cfg = streamCfg{Cap: m.num("cap"), DelayUS: m.num("delay"), Window: m.num("window"), Seed: int64(m.num("seed"))}
+	o.cfg = streamCfg{Cap: m.num("cap"), DelayUS: m.num("delay"), LingerUS: m.num("linger"), Window: m.num("window"), Seed: int64(m.num("seed"))}
 	if _, ok := m["cap"]; !ok {
 		o.cfg.Cap = 32
 	}
@@ -455,7 +455,7 @@ func syncOnce(o Op, sched Op) map[string]interface{} {
 		mfs.readSizes = intList(rs)
 	}
 	if sched != nil {
-		xo.cfg = streamCfg{Cap: sched.num("cap"), DelayUS: sched.num("delay"), Window: sched.num("window"), Seed: int64(sched.num("seed"))}
+		xo.cfg = streamCfg{Cap: sched.num("cap"), DelayUS: sched.num("delay"), LingerUS: sched.num("linger"), Window: sched.num("window"), Seed: int64(sched.num("seed"))}
 		if p := sched.num("procs"); p > 0 {
 			defer runtime.GOMAXPROCS(runtime.GOMAXPROCS(p))
 		}
